@@ -1,6 +1,7 @@
 """C14 count-min never under-estimates and is linear under merge (DESIGN.md section 5 C14): structural clauses."""
 import cm_rules as M
 import cowrite
+import generic_lints
 
 
 def run(facts, tier):
@@ -11,6 +12,7 @@ def run(facts, tier):
         ("merge", M.merge_rules, 3, "self merge refused; configuration (incl. full seed) compared; cell-wise sum; totals added"),
         ("configuration guard", M.config_guard, 1, "size limit evaluated without 32-bit wrap-around"),
         ("couplings", lambda fa: cowrite.obligations(fa, ['count_min_sketch']), 4, "fields that every mutator updates together (counters, extremes, cached values) are still updated together"),
+        ("duplicate operands", lambda fa: generic_lints.duplicate_conjuncts(fa, ('count/',)), 2, "no logical chain tests the same operand twice (copy-paste of the wrong peer)"),
     ):
         o = f(facts)
         obs += o
